@@ -87,6 +87,14 @@ func NewMerkleBlockFromMsg(msg wire.MsgMerkleBlock) *PartialBlock {
 // an invalid block being parsed
 func (m *PartialBlock) ExtractMatches() *chainhash.Hash {
 
+	// every extraction starts from the beginning of the message: the cursors
+	// and matches of an earlier call must not leak into this one
+	m.bad = false
+	m.bitsUsed = 0
+	m.hashesUsed = 0
+	m.matchedHashes = make([]*chainhash.Hash, 0)
+	m.matchedItems = make([]uint32, 0)
+
 	// if block is empty then no extraction can be made
 	if m.numTx == 0 {
 		return nil
